@@ -37,6 +37,17 @@ def header(d):
     return "circuit " + " ".join("%s=%s" % (k, v) for k, v in d.items())
 
 
+def fbscript(rng, d, p=0.5):
+    """script of this caller's fallback future (only meaningful with a fallback configured): a fallback is a future of
+    its own — a replica read, a remote cache — that need not finish on its first poll, may fail, panic or hang"""
+    if not d.get("fallback") or rng.random() >= p:
+        return ""
+    lat = rng.choice([0, 1, 5, 5, 20, 50, 200])
+    r = rng.random()
+    out = "ok" if r < 0.7 else rng.choice(["err1", "err2"]) if r < 0.85 else "never" if r < 0.95 else "panic"
+    return " fb=%d:%s" % (lat, out)
+
+
 def outcome(rng, pfail):
     if rng.random() < pfail:
         return rng.choice(["err1", "err1", "err2"])
@@ -57,6 +68,7 @@ def gen_seq(rng, tier):
             c += 1
             o = outcome(rng, pfail)
             tag = " tag=%d" % rng.randint(0, 9) if d["cls"] == 2 else ""
+            tag += fbscript(rng, d, 0.25)     # if rejected: a fallback that may stay pending across the later operations
             if slow and rng.random() < 0.4:
                 lat = rng.choice([slow - 1, slow, slow + 1, slow * 2])
                 ops += ["arrive %d inner=%d:%s%s" % (c, lat, o, tag), "poll %d" % c, "adv %d" % lat, "poll %d" % c]
@@ -113,11 +125,14 @@ def gen_conc(rng, tier, halfopen_bias=False):
             if rng.random() < 0.06:
                 o = rng.choice(["panic", "never"])
             tag = " tag=%d" % rng.randint(0, 9) if d["cls"] == 2 else ""
-            ops.append("arrive %d inner=%d:%s%s" % (c, lat, o, tag))
+            fb = fbscript(rng, d)
+            ops.append("arrive %d inner=%d:%s%s%s" % (c, lat, o, tag, fb))
             live.append(c)
             if rng.random() < (0.8 if halfopen_bias else 0.6):
                 ops.append("poll %d" % c)
                 marks.append(now + lat)
+                if fb:
+                    marks.append(now + int(fb.split("=")[1].split(":")[0]))
         elif r < 0.55 and live:
             x = rng.choice(live)
             ops.append("poll %d" % x)
@@ -147,8 +162,75 @@ def gen_conc(rng, tier, halfopen_bias=False):
     return {"header": header(d), "ops": ops}
 
 
+def gen_pending_fallback(rng, tier, halfopen=False):
+    """"each is answered at once with the open-circuit error, or by the configured fallback": the breaker is open (or
+    half-open with its trial slots taken) and rejects callers whose fallback futures stay pending; meanwhile other callers
+    (clones) arrive, calls admitted before the breaker opened complete and are recorded, state()/metrics() are probed and
+    force_open / force_closed / reset are issued — none of that may wait for somebody's fallback"""
+    d = gen_cfg(rng, "conc")
+    d["fallback"] = 1
+    if d["wait"] != "max" and rng.random() < 0.6:
+        d["wait"] = rng.choice([100, 1000])
+    w = _w(d)
+    ops = []
+    c = 0
+    live = []
+    marks = []
+    now = 0
+    # calls admitted while still closed, in flight when the breaker opens
+    for _ in range(rng.choice([0, 0, 1, 2])):
+        c += 1
+        lat = rng.choice([1, 5, 20])
+        ops += ["arrive %d inner=%d:%s" % (c, lat, rng.choice(["ok", "err1"])), "poll %d" % c]
+        live.append(c)
+        marks.append(lat)
+    ops.append("manual force_open")
+    if halfopen:
+        p = d["permitted"]
+        ops.append("adv %d" % w)
+        now += w
+        for _ in range(p):
+            c += 1
+            ops += ["arrive %d inner=%s" % (c, rng.choice(["500:ok", "0:never", "30:ok", "30:err1"])), "poll %d" % c]
+            live.append(c)
+            marks.append(now + 30)
+    for i in range(rng.randint(6, 30)):
+        r = rng.random()
+        if r < 0.40:
+            c += 1
+            fb = fbscript(rng, d, 0.8)
+            ops.append("arrive %d inner=%d:ok%s" % (c, rng.choice([0, 5]), fb))
+            live.append(c)
+            if rng.random() < 0.85:
+                ops.append("poll %d" % c)
+                if fb:
+                    marks.append(now + int(fb.split("=")[1].split(":")[0]))
+        elif r < 0.52 and live:
+            ops.append("poll %d" % rng.choice(live))
+        elif r < 0.58 and live:
+            x = rng.choice(live)
+            ops.append("drop %d" % x)
+            live.remove(x)
+        elif r < 0.72:
+            ops.append("probe views")
+        elif r < 0.80:
+            ops.append("manual " + rng.choice(["force_open", "force_closed", "reset", "force_open"]))
+        elif r < 0.93:
+            fut = [m for m in marks if m >= now]
+            dt = max(0, rng.choice(fut) - now + rng.choice([-1, 0, 0, 1])) if fut and rng.random() < 0.7 else rng.choice([0, 1, 5, w - 1, w])
+            ops.append("adv %d" % dt)
+            now += dt
+        else:
+            ops.append("settle")
+    ops += ["settle", "probe views"]
+    return {"header": header(d), "ops": ops}
+
+
 def gen_c03(rng, tier):
-    return gen_conc(rng, tier) if rng.random() < 0.8 else gen_seq(rng, tier)
+    r = rng.random()
+    if r < 0.15:
+        return gen_pending_fallback(rng, tier, halfopen=rng.random() < 0.25)
+    return gen_conc(rng, tier) if r < 0.83 else gen_seq(rng, tier)
 
 
 def gen_c04(rng, tier):
@@ -208,6 +290,8 @@ def gen_c09(rng, tier):
     r = rng.random()
     if r < 0.2:
         return gen_stale_trial(rng, tier)
+    if r < 0.26:
+        return gen_pending_fallback(rng, tier, halfopen=True)
     return gen_conc(rng, tier, halfopen_bias=True) if r < 0.88 else gen_conc(rng, tier)
 
 
@@ -253,6 +337,39 @@ def mon_c03(case, lines, meta):
                     return "line %d: left the open state at t=%d, opened at t=%d, wait=%d, without a manual override" % (i, t, t_open, wait)
             t_open = t if w[2] == "open" else None
         prev = w
+    return None
+
+
+def mon_at_once(case, lines, meta):
+    """"answered at once": (a) a caller's first poll either reaches the inner service, or answers it (open-circuit error),
+    or invokes its fallback — in that very poll, whatever other callers' fallbacks are doing; (b) state()/metrics()/
+    force_open()/force_closed()/reset() complete at once (the harness is single threaded: if one of them has to wait,
+    the breaker's mutex is being held across somebody's await)"""
+    for i, l in enumerate(lines):
+        t, w = tparse(l)
+        if not w:
+            continue
+        if w[0] == "probe" and len(w) > 1 and w[1] == "blocked":
+            return "line %d: state()/metrics() did not complete at t=%d: the breaker's lock is held across an await (by a pending fallback?)" % (i, t)
+        if w[0] == "manual_blocked":
+            return "line %d: %s() did not complete at t=%d: the breaker's lock is held across an await (by a pending fallback?)" % (i, w[1], t)
+    for j, (pos, m) in enumerate(meta):
+        w = m.split()
+        if w[0] != "#fp" or pos < 0:
+            continue
+        c = w[1]
+        end = len(lines)
+        if j + 1 < len(meta) and meta[j + 1][0] >= 0:
+            end = meta[j + 1][0]
+        got = None
+        for l in lines[pos:end]:
+            _, x = tparse(l)
+            if x and x[0] != "transition":
+                got = x
+                break
+        if got is None or len(got) < 2 or got[1] != c or got[0] not in ("inner_call", "fallback_call", "result"):
+            return ("caller %s, first polled at t=%s, was neither admitted nor rejected nor handed to its fallback in that poll "
+                    "(next event: %s): it is waiting for something inside the breaker" % (c, w[2], " ".join(got) if got else "none"))
     return None
 
 
@@ -360,8 +477,9 @@ def mon_c04(case, lines, meta):
             sp.record(t, fail, t - start.pop(w[1], t))
         elif w[0] == "inner_drop":
             start.pop(w[1], None)
-        elif w[0] == "result" and w[2] in ("err:open",) or (w[0] == "result" and w[2].startswith("ok:fallback")):
-            # a rejection: the documented machine must be open (or half-open with its trials used up)
+        elif (w[0] == "result" and w[2] == "err:open") or w[0] == "fallback_call":
+            # a rejection (decided when the fallback is invoked — its value may arrive much later): the documented
+            # machine must be open (or half-open with its trials used up)
             if sp.state == "closed":
                 return "line %d: call %s rejected while the documented machine is closed" % (i, w[1])
             if sp.state == "open" and t - sp.since >= sp.wait:
@@ -417,6 +535,8 @@ def mon_c09(case, lines, meta):
 
 def transitions(case, lines):
     tags = []
+    pending = set()       # callers whose fallback has been invoked and has not finished
+    called_now = set()    # … invoked by the previous line (a result right after it = finished at once)
     for l in lines:
         _, w = tparse(l)
         if not w:
@@ -429,6 +549,28 @@ def transitions(case, lines):
             tags.append("inner_drop")
         elif w[0] == "manual":
             tags.append("manual-" + w[1])
+            if pending:
+                tags.append("manual-during-pending-fallback")
+        elif w[0] == "probe" and pending:
+            tags.append("probe-during-pending-fallback")
+        elif w[0] == "inner_done" and pending:
+            tags.append("record-during-pending-fallback")
+        elif w[0] == "inner_call" and pending:
+            tags.append("admit-during-pending-fallback")
+        if w[0] == "fallback_call":
+            if pending:
+                tags.append("reject-during-pending-fallback")
+            pending.add(w[1])
+        elif w[0] == "result":
+            if w[1] in pending and w[1] not in called_now:
+                tags.append("fallback-late-" + ("ok" if "fallback" in w[2] else "panic" if w[2] == "panic" else "err"))
+            elif w[2] == "err:open" and pending:
+                tags.append("reject-during-pending-fallback")
+            pending.discard(w[1])
+        elif w[0] == "fallback_drop":
+            tags.append("fallback_drop")
+            pending.discard(w[1])
+        called_now = {w[1]} if w[0] == "fallback_call" else set()
     return tags
 
 
@@ -437,7 +579,9 @@ def nontrivial(case, lines, tags):
 
 
 ALL_TR = ["tr-closed-open", "tr-open-halfopen", "tr-halfopen-closed", "tr-halfopen-open", "tr-open-closed", "tr-halfopen-closed",
-          "result-open", "result-fallback", "result-ok", "result-err", "inner_drop", "manual-reset", "manual-force_open", "manual-force_closed"]
+          "result-open", "result-fallback", "result-ok", "result-err", "inner_drop", "manual-reset", "manual-force_open", "manual-force_closed",
+          "fallback-late-ok", "fallback-late-err", "fallback-late-panic", "fallback_drop", "reject-during-pending-fallback",
+          "admit-during-pending-fallback", "record-during-pending-fallback", "probe-during-pending-fallback", "manual-during-pending-fallback"]
 
 LEVEL_NOTE = ("Trusted: Lean kernel; the transcription of circuit.rs / lib.rs in TR.Model.Circuit (validated only by the sampled "
               "correspondence check); thresholds are exact rationals num/den (equal to the f64 comparison for the window sizes exercised); "
@@ -460,12 +604,14 @@ COMMON = {
 }
 
 SPECS = {
-    "C03": dict(COMMON, module="TR.Props.C03", gen=gen_c03, monitors=[("c03-open-shields", mon_c03)],
+    "C03": dict(COMMON, module="TR.Props.C03", gen=gen_c03, monitors=[("c03-open-shields", mon_c03), ("c03-answered-at-once", mon_at_once)],
                 rule="concurrent callers on clones (arrive/poll/drop/adv/settle/manual/probe), opening by failure rate, slow-call rate and "
-                     "force_open, advances biased to wait-1/wait/wait+1; distinct = distinct implementation log; non-trivial = >= 2 state transitions",
+                     "force_open, advances biased to wait-1/wait/wait+1; fallbacks that are futures of their own (fb=<lat>:<ok|errK|panic|never>) left pending "
+                     "while other callers arrive, earlier calls are recorded, views are probed and manual overrides issued; distinct = distinct implementation log; non-trivial = >= 2 state transitions",
                 level_text="Theorems TR.Props.C03.*: in every reachable state and for every step, an inner call is started only if the breaker "
                            "was not open before the admission or wait_duration_in_open had elapsed (and it first moved to half-open); a rejected "
-                           "caller gets err:open / the fallback in the same step and never an inner call; the lock-free mirror always equals the state."),
+                           "caller gets err:open / the fallback is invoked in the same step (whatever other callers' fallbacks are doing) and never an inner call; "
+                           "a pending fallback touches nothing of the breaker and no other step depends on it; the lock-free mirror always equals the state."),
     "C04": dict(COMMON, module="TR.Props.C04", gen=gen_c04, monitors=[("c04-documented-machine", mon_c04)],
                 rule="sequential histories (length 10..300) over success/failure/slow success/slow failure/wait/force_open/force_closed/reset with "
                      "probe views after every step; both window types; thresholds incl. 0 and 1; min calls below/equal/above the window; three classifiers",
@@ -473,7 +619,7 @@ SPECS = {
                            "than the window duration (time); the incrementally maintained counters equal the counts over that window; closed->open exactly when the "
                            "documented condition holds; open->half-open at the first call after the wait; half-open->closed after permitted successes, ->open on a failure; "
                            "reset empties the window; all views are the same function of the state."),
-    "C09": dict(COMMON, module="TR.Props.C09", gen=gen_c09, monitors=[("c09-halfopen-trials", mon_c09)],
+    "C09": dict(COMMON, module="TR.Props.C09", gen=gen_c09, monitors=[("c09-halfopen-trials", mon_c09), ("c09-excess-answered-at-once", mon_at_once)],
                 rule="breaker driven to half-open, then many callers arriving together with slow trial calls, mixed outcomes, drops and panics of "
                      "trial futures; both window types",
                 level_text="Theorems TR.Props.C09.*: in every reachable half-open state, trial calls started in the episode minus those cancelled equals "
